@@ -16,7 +16,7 @@ static int qt_from_name(const std::string &s)
 void Relay::configure(const J &c)
 {
 	case_q = c.gets("case_q", "keep"); case_a = c.gets("case_a", "keep");
-	hibit = c.gets("hibit", "keep"); hibit_a = c.gets("hibit_a", "keep"); plus = c.gets("plus", "keep"); under = c.gets("under", "keep");
+	hibit = c.gets("hibit", "keep"); hibit_a = c.gets("hibit_a", "keep"); plus_a = c.gets("plus_a", "keep"); under_a = c.gets("under_a", "keep"); plus = c.gets("plus", "keep"); under = c.gets("under", "keep");
 	refuse_mode = c.gets("refuse_mode", "servfail");
 	if (c.has("refuse_types")) for (auto &t : c["refuse_types"].a) { int q = qt_from_name(t.s); if (q) refuse.insert(q); }
 	maxans = (int)c.geti("maxans", 0); big = c.gets("big", "drop");
@@ -28,7 +28,7 @@ void Relay::configure(const J &c)
 
 std::string Relay::sig() const
 {
-	std::string s = "cq=" + case_q + ",ca=" + case_a + ",hb=" + hibit + "/" + hibit_a + ",+=" + plus + ",_=" + under + ",ed=" + edns + ",max=" + std::to_string(maxans) + "/" + big + ",ref=";
+	std::string s = "cq=" + case_q + ",ca=" + case_a + ",hb=" + hibit + "/" + hibit_a + ",+=" + plus + "/" + plus_a + ",_=" + under + "/" + under_a + ",ed=" + edns + ",max=" + std::to_string(maxans) + "/" + big + ",ref=";
 	for (int t : refuse) s += std::to_string(t) + "+";
 	s += refuse_mode;
 	if (shuffle) s += ",shuf"; if (reencode) s += ",reenc"; if (idrewrite) s += ",idrw"; if (ref_reencode) s += ",refenc";
@@ -150,7 +150,7 @@ bool Relay::filter_answer(Dgram &d)
 			else S->count("relay.ref_reencode_nofit");
 		}
 	}
-	bool need_rebuild = case_a != "keep" || shuffle || reencode || ttl_rewrite || hibit_a == "strip";
+	bool need_rebuild = case_a != "keep" || shuffle || reencode || ttl_rewrite || hibit_a == "strip" || plus_a == "mangle" || under_a == "mangle";
 	if (need_rebuild) {
 		DnsMsg m;
 		if (dns_parse_strict(d.data, m).empty()) {
@@ -161,6 +161,8 @@ bool Relay::filter_answer(Dgram &d)
 					ctr++;
 					if (case_a != "keep") recase(c, case_a, key ^ ctr * 1315423911ull);
 					if (c >= 0x80 && hibit_a == "strip") { c &= 0x7f; if (c < 0x21) c = '-'; }
+					if (c == '+' && plus_a == "mangle") c = '-';
+					if (c == '_' && under_a == "mangle") c = '-';
 				}
 			};
 			for (auto &r : m.an) { if (r.type == QT_CNAME || r.type == QT_MX || r.type == QT_SRV || r.type == QT_NS) fix(r.rname); if (ttl_rewrite) r.ttl = 30; }
@@ -214,6 +216,8 @@ J gen_relay(Rng &r, const std::string &force_up)
 		if (r.chance(0.3)) c.set("case_a", cases[r.range(0, 3)]);
 		if (r.chance(0.4)) c.set("hibit", hib[r.range(0, 2)]);
 		if (r.chance(0.25)) c.set("hibit_a", "strip");
+		if (r.chance(0.2)) c.set("plus_a", "mangle");
+		if (r.chance(0.15)) c.set("under_a", "mangle");
 		if (r.chance(0.35)) c.set("plus", pl[r.range(0, 2)]);
 		if (r.chance(0.25)) c.set("under", pl[r.range(0, 2)]);
 		if (r.chance(0.5)) {
